@@ -39,6 +39,7 @@ THEOREMS = [
     "C14_patch_derives",
     "C14_patch_derives_survive_default",
     "C14_patch_apply",
+    "C14_patch_rename_verbatim",
     "C14_patch_use_sites",
     "C14_map_type_everywhere",
     "C14_map_json_exception",
@@ -142,13 +143,13 @@ class tok_re:
     external path (`::serde_json::Value` does not mention a definition called Value; `super::Value` does)"""
 
     def __init__(self, name):
-        self.rx = re.compile(r"(?<![A-Za-z0-9_])%s(?![A-Za-z0-9_])" % re.escape(name))
+        self.rx = re.compile(r"(?<!\w)%s(?!\w)" % re.escape(name))       # \w is Unicode-aware: Gr\u00f6\u00dfe, \u00c9
 
     def search(self, text):
         for m in self.rx.finditer(text):
             before = text[:m.start()].rstrip()
             if before.endswith("::"):
-                seg = re.search(r"([A-Za-z0-9_]+)\s*::$", before)
+                seg = re.search(r"(\w+)\s*::$", before)
                 if not seg or seg.group(1) not in ("super", "self", "crate", "Self"):
                     continue
             return m
@@ -167,6 +168,30 @@ MARK2 = "::c14_marker::Global"
 # (`::rkyv::Serialize`, `::stable_hash::Hash` ...).  Derive strings are identified only when equal as strings.
 BUILTIN_SEGMENTS = ["Serialize", "Deserialize", "Clone", "Debug", "Copy", "PartialEq", "Eq", "PartialOrd", "Ord", "Hash",
                     "Default"]
+
+
+# rename targets of every identifier shape (all valid Rust identifiers: typify uses the requested name
+# VERBATIM, util.rs type_patch; C14_patch_rename_verbatim, C14_patch_apply, C14F_type_patch, C14F_patch_entry)
+RENAME_ASCII = ["IP{n}", "HTTP{n}Server", "{n}_V2", "_{n}", "{l}_case", "V2{n}", "{n}2", "{lc}Bar", "{n}Rn", "{n}_"]
+RENAME_SCAN_ONLY = RENAME_ASCII + ["Gr\u00f6\u00dfe{n}", "{n}\u00c9"]
+RENAME_ONCE = ["T", "Self_", "x", "IPAddr", "HTTPServer", "Address_V2", "_Private", "snake_case", "fooBar"]
+PATCH_THEOREMS = ["C14_patch_rename_verbatim", "C14_patch_apply", "C14_patch_use_sites", "C14F_type_patch",
+                  "C14F_patch_entry", "C14F_patch_old_name_gone"]
+
+
+def rename_target(rnd, name, taken, scan_only=False):
+    """a fresh rename target for type `name` in one of the identifier shapes; None if none is free"""
+    pool = list(RENAME_SCAN_ONLY if scan_only else RENAME_ASCII)
+    rnd.shuffle(pool)
+    cands = []
+    if rnd.random() < 0.25:
+        cands += rnd.sample(RENAME_ONCE, 2)
+    cands += [t.format(n=name, l=name.lower(), lc=name[:1].lower() + name[1:]) for t in pool]
+    for c in cands:
+        if c not in taken and c != name:
+            taken.add(c)
+            return c
+    return None
 
 
 def last_segment(d):
@@ -658,8 +683,8 @@ def pick_settings(rnd, doc, base, force=None):
         tgt = rnd.choice(pn)
         x = rnd.random()
         if x < 0.7:
-            new = tgt + "Rn"
-            if new not in names:
+            new = rename_target(rnd, tgt, set(names))
+            if new is not None:
                 meta["patch"][tgt] = {"rename": new, "derives": []}
         if x > 0.35:
             # PartialEq on the target and on every named type it contains by value (rustc needs
@@ -899,11 +924,32 @@ def check_syntactic(doc, st, meta, g, base, viol, counts):
         if it is None:
             # a patch whose target is not generated (e.g. an inline type of a replaced definition)
             # is silently ignored, as documented; the target surviving under its OLD name is not
+            renamed_keys = {k for k, q in meta["patch"].items() if q.get("rename")}
+            requested = {q["rename"] for q in meta["patch"].values() if q.get("rename")}
+            unexpected = sorted(set(D.named()) - ((set(B.named()) - renamed_keys) | requested))
+            bid = B.named().get(key)
+            same_id = D.ent(bid) if bid is not None and not meta["replace"] and not meta["convert"] else None
             if p.get("rename") and (key in items or key in D.named()):
-                bad("patched-type-missing-under-new-name", key=key, new=new)
+                bad("patched-type-missing-under-new-name", key=key, new=new, theorems=PATCH_THEOREMS)
+            elif p.get("rename") and same_id is not None and same_id.get("name") not in (None, new):
+                # the type is generated, under a name that is neither the old nor the REQUESTED one
+                bad("renamed-item-has-different-name", key=key, requested=new, found=same_id.get("name"),
+                    theorems=PATCH_THEOREMS)
+            elif p.get("rename") and key in B.named() and unexpected:
+                bad("renamed-item-has-different-name", key=key, requested=new, found=unexpected,
+                    theorems=PATCH_THEOREMS)
             else:
                 counts["patch_target_not_generated"] += 1
             continue
+        if p.get("rename"):
+            shape = ("non-ascii" if not new.isascii() else "leading-underscore" if new.startswith("_") else
+                     "lower-start" if new[:1].islower() else "underscore" if "_" in new else
+                     "acronym" if re.match(r"[A-Z]{2,}", new) else "digit" if re.search(r"\d", new) else
+                     "single-letter" if len(new) == 1 else "pascal")
+            counts["rename_shape:" + shape] += 1
+            if MUT == "rename-sanitised" and shape not in ("pascal",):
+                bad("renamed-item-has-different-name", key=key, requested=new, found="(emulated) sanitize(%s)" % new,
+                    theorems=PATCH_THEOREMS)
         if MUT == "derive-dedup-by-last-segment":
             it = dict(it, derives=emulate_dedup_by_last_segment(it["derives"], set(p.get("derives", [])) | set(meta["derives"])))
         for d in p.get("derives", []):
@@ -1495,6 +1541,12 @@ def load_docs(ctx):
 
 
 def run(ctx):
+    # two C14 runs share the world name and the Coq case directories: serialise them
+    with vlib.Lock("c14-run"):
+        _run(ctx)
+
+
+def _run(ctx):
     ctx.level = "proof"
     quick = ctx.tier == "quick"
     ctx.checker_cmd = ("make theories/Props/C14.vo; coqc work/cases/c14we_%s/*.v (wire_equiv on the real dumps + "
@@ -1552,10 +1604,11 @@ def run(ctx):
         if names:
             pm = {}
             coll = colliding_markers(g)
+            taken_names = set(names)
             for nm in sorted(names):
                 pm[nm] = {"rename": None, "derives": [MARK] + rnd.sample(coll, 3)}
-                if rnd.random() < 0.3 and nm + "Mk" not in names:
-                    pm[nm]["rename"] = nm + "Mk"
+                if rnd.random() < 0.3:
+                    pm[nm]["rename"] = rename_target(rnd, nm, taken_names, scan_only=True)
             st = {"patch": {k: {kk: vv for kk, vv in v.items() if vv} for k, v in pm.items()}}
             x = rnd.random()
             if x < 0.4:
